@@ -128,6 +128,8 @@ def gen_expr(rng, pool, conts, depth=0):
         return ["ref", rng.choice(pool)]
     if k < 0.42:         # an attribute of an expression's value: an AttrRef whose owner is an expression node
         return ["proj", rng.choice(["real", "imag", "numerator", "denominator"]), gen_expr(rng, pool, conts, depth + 1)]
+    if k < 0.47:        # % and // with a non-zero constant divisor (guarded operators: ZeroDivisionError handling inside)
+        return ["bin", rng.choice(["%", "//"]), gen_expr(rng, pool, conts, depth + 1), ["const", rng.choice([-3, -2, 2, 3, 5])]]
     if k < 0.6:
         a = ["ref", rng.choice(pool)]
         b = ["const", rng.randint(-5, 5)]
@@ -181,6 +183,7 @@ def gen_history(rng, profile="mixed", nops=None, nofun=False, attrdict=False, ke
     rank = list(leaves)
     rng.shuffle(rank)
     hot = rank[:3]            # "windows": a few low-ranked locations that are assigned again and again
+    read_faults = profile == "fault" and rng.random() < 0.3     # this history injects read faults (oracle only: the model counts writes)
     used_id = lambda p: False
     pos = {json.dumps(p): i for i, p in enumerate(rank)}
     nops = nops or rng.randint(3, 14)
@@ -215,7 +218,11 @@ def gen_history(rng, profile="mixed", nops=None, nofun=False, attrdict=False, ke
             t2 = rng.choice(leaves)
             val = gen_value(rng, values)
             for _rep in range(rng.choice([1, 1, 1, 2, 3])):          # several faulty updates in a row
-                ops.append(["arm", rng.choice([0, 0, 1, 1, 2, 2, 3, 4, 6]), rng.choice(FAULT_KINDS)])
+                if read_faults:
+                    # the k-th container READ of the update raises (a task fails while evaluating its expression)
+                    ops.append(["arm_read", rng.choice([0, 1, 1, 2, 3, 4, 6, 9]), rng.choice(FAULT_KINDS)])
+                else:
+                    ops.append(["arm", rng.choice([0, 0, 1, 1, 2, 2, 3, 4, 6]), rng.choice(FAULT_KINDS)])
                 ops.append(["set", t2, ["plain", val]])
             ops.append(["disarm"])
             if rng.random() < 0.85:
@@ -385,7 +392,7 @@ class Emit:
         if k == "ref":
             return f"(ERef {self.path(e[1])})"
         if k == "bin":
-            o = {"+": "BAdd", "-": "BSub", "*": "BMul"}[e[1]]
+            o = {"+": "BAdd", "-": "BSub", "*": "BMul", "%": "BMod", "//": "BFdiv"}[e[1]]
             return f"(EBin {o} {self.expr(e[2])} {self.expr(e[3])})"
         if k == "callsum":
             return f"(ECallSum {self.path(e[1])} {self.path(e[2])})"
@@ -507,8 +514,8 @@ def model_compare(ctx, cases, observations, tag, per_file=20):
     for chunk in vlib.chunks(list(range(len(cases))), per_file):
         items, ids = [], []
         for i in chunk:
-            if not is_int_case(cases[i]):
-                continue                  # values outside the model's domain: judged by the oracles only
+            if not is_int_case(cases[i]) or any(op[0] == "arm_read" for op in cases[i]["ops"]):
+                continue                  # values / fault kinds outside the model's domain: judged by the oracles only
             e = emit_case(cases[i], observations[i])
             if e is None:
                 skipped.append(i)
